@@ -26,8 +26,12 @@ def build(S):
         I = S.interp()
         models_py.install(I)
         mod = I.module(REL)
+        if 'COVALENT_RADII' not in mod.consts or 'NON_METALS' not in mod.consts:
+            raise OutOfSubset("COVALENT_RADII / NON_METALS are no longer literal tables (contract no longer applies)")
         radii = mod.consts['COVALENT_RADII']
+        from specs.bond_tables import NON_METALS as nonmet_spec
         nonmet = mod.consts['NON_METALS']
+        st_tables_ok = (list(nonmet) == list(nonmet_spec))
         clo = I.closure_for(REL, 'max_bond_length')
         e1, e2 = z3.Const('el1', StrS), z3.Const('el2', StrS)
         lit = I.reg.strlit
@@ -66,6 +70,7 @@ def build(S):
                   clause='cutoff = r1 + r2 (+0.45 if a non-metal is involved)')
             S.add_canary(I, "max_bond_length/canary#%d" % i, p.pc)
         S.add(I, "lemma/cutoff-symmetric", [], spec(e1, e2) == spec(e2, e1), kind='lemma', clause='cutoff symmetric in the two elements')
+        S.add(I, "tables/non-metal-list-is-the-documented-one", [], z3.BoolVal(bool(st_tables_ok)), clause='the 0.45 A allowance applies to H, D, B, C, N, O, F, P, S, Cl, Se, Br, I, Si')
         S.add_interp_obligations(I, replay=replay_for)
     S.guarded('max_bond_length', run)
     S.clause('cutoff rule (all 97 x 97 element pairs, symbolically)', 'PROVED')
